@@ -87,7 +87,11 @@ impl TcpStream {
 
             let syn = Protocol::Tcp(Segment::Syn(Syn { ack }));
             if !is_same(pair.local, pair.remote) {
-                world.send_message(pair.local, pair.remote, syn)?;
+                if let Err(e) = world.send_message(pair.local, pair.remote, syn) {
+                    // Nothing was sent: give back the stream-table entry (and with it the port).
+                    world.current_host_mut().tcp.reset_stream(pair);
+                    return Err(e);
+                }
             } else {
                 send_loopback(pair.local, pair.remote, syn);
             };
@@ -95,12 +99,17 @@ impl TcpStream {
             Ok::<_, Error>((pair, rx, bidi))
         })?;
 
+        // Until the handshake completes no `TcpStream` exists, so nothing else would release the
+        // entry registered above if the connect is refused or this future is dropped.
+        let mut pending = PendingConnect { pair, armed: true };
+
         syn_ack.await.map_err(|_| {
             io::Error::new(io::ErrorKind::ConnectionRefused, pair.remote.to_string())
         })?;
 
         tracing::trace!(target: TRACING_TARGET, src = ?pair.remote, dst = ?pair.local, protocol = %"TCP SYN-ACK", "Recv");
 
+        pending.armed = false;
         Ok(TcpStream::new(pair, rx, bidi))
     }
 
@@ -191,6 +200,20 @@ impl TcpStream {
     /// available.
     pub fn poll_peek(&mut self, cx: &mut Context<'_>, buf: &mut ReadBuf) -> Poll<Result<usize>> {
         self.read_half.poll_peek(cx, buf)
+    }
+}
+
+/// Releases the stream-table entry of a connect whose handshake has not completed.
+struct PendingConnect {
+    pair: SocketPair,
+    armed: bool,
+}
+
+impl Drop for PendingConnect {
+    fn drop(&mut self) {
+        if self.armed {
+            World::current_if_set(|world| world.current_host_mut().tcp.reset_stream(self.pair));
+        }
     }
 }
 
